@@ -9,6 +9,7 @@ def main():
         ex = symexec.get_exec(repo, ms, api.REGISTRY)
         for q, c in ms.contracts.items():
             if only and q not in only: continue
+            if getattr(c, 'assumed', False): continue
             t=time.time()
             try:
                 obs = symexec.verify_contract(ex, c)
